@@ -521,8 +521,10 @@ static char *int_string_unlink (char *str) {
   malloc_block_t *newmbt;
 
   assert (str != NULL);
-  assert (MSTR_REF (str) > 1);
-  MSTR_REF (str)--; /* decrement reference count */
+  assert (MSTR_REF (str) != 1);
+  /* one holder less; a count of 0 means "more than USHRT_MAX holders, immortal" and stays 0 (DEC_COUNTED_REF) */
+  if (MSTR_REF (str))
+    MSTR_REF (str)--;
 
   if (MSTR_SIZE (str) == USHRT_MAX)
     {
@@ -588,7 +590,9 @@ void unlink_string_svalue (svalue_t * s) {
   switch (s->subtype)
     {
     case STRING_MALLOC:
-      if (MSTR_REF (s->u.string) > 1)
+      /* Only a block with exactly one holder may be written to in place.  The count of a string that has had
+       * more than USHRT_MAX holders is 0 (immortal): it is shared by all of them, not owned by this one. */
+      if (MSTR_REF (s->u.string) != 1)
         s->u.string = int_string_unlink (s->u.string);
       break;
     case STRING_SHARED:
